@@ -26,6 +26,11 @@ Section Sort.
   (* SWAP(a, m, n): temp = a[m]; a[m] = a[n]; a[n] = temp *)
   Definition aswap (a : arr) (i j : N) : arr :=
     let x := aget a i in let y := aget a j in aset (aset a i y) j x.
+  (* the allocation holds `bound` elements; a SWAP that touches an index outside it is undefined behaviour in C:
+     the model stops (None), like it does when it runs out of fuel *)
+  Variable bound : N.
+  Definition aswap_c (a : arr) (i j : N) : option arr :=
+    if (i <? bound) && (j <? bound) then Some (aswap a i j) else None.
   Definition gtb (x y : V) : bool := negb (leb x y).     (* x > y  (no NaN) *)
   Definition ltb (x y : V) : bool := negb (leb y x).     (* x < y *)
 
@@ -119,7 +124,10 @@ Section Sort.
              | Some (rw', true) => Some (a, lw', rw')
              | Some (rw', false) =>
                if rw' <=? lw' then Some (a, lw', rw')
-               else pmain f (aswap a (b + lw') (b + rw')) b jump pivot lw' rw'
+               else match aswap_c a (b + lw') (b + rw') with
+                    | None => None
+                    | Some a' => pmain f a' b jump pivot lw' rw'
+                    end
              end
       end
     end.
@@ -136,7 +144,11 @@ Section Sort.
       match loopB fuel a b jump pivot lw rw0 with
       | None => None
       | Some (rw, true) => Some (a, lw, rw)
-      | Some (rw, false) => pmain fuel (aswap a (b + lw) (b + rw)) b jump pivot lw rw
+      | Some (rw, false) =>
+        match aswap_c a (b + lw) (b + rw) with
+        | None => None
+        | Some a' => pmain fuel a' b jump pivot lw rw
+        end
       end
     end.
 
@@ -223,7 +235,10 @@ Section Sort.
            | None => None
            | Some rw' =>
              if rw' <? lw' then Some (a, lw', rw', true)
-             else fixmain f (aswap a (b + lw') (b + rw')) b pivot lw' rw'
+             else match aswap_c a (b + lw') (b + rw') with
+                  | None => None
+                  | Some a' => fixmain f a' b pivot lw' rw'
+                  end
            end
     end.
 
@@ -234,9 +249,13 @@ Section Sort.
     let rw := fixB fuel a b pivot lw rwall in
     let r :=
       if lw <? rw then
-        match fixmain fuel (aswap a (b + lw) (b + rw)) b pivot lw rw with
+        match aswap_c a (b + lw) (b + rw) with
         | None => None
-        | Some (a', _, rw', _) => Some (a', rw')
+        | Some a0 =>
+          match fixmain fuel a0 b pivot lw rw with
+          | None => None
+          | Some (a', _, rw', _) => Some (a', rw')
+          end
         end
       else Some (a, rw) in
     match r with
@@ -245,11 +264,17 @@ Section Sort.
     end.
 
   (* tri-median pivot selection on [b, b+len): three conditional swaps, pivot = a[b + len/2] *)
-  Definition trimedian (a : arr) (b len : N) : arr :=
+  Definition trimedian (a : arr) (b len : N) : option arr :=
     let i := len / 2 in
-    let a1 := if gtb (aget a b) (aget a (b + i)) then aswap a b (b + i) else a in
-    let a2 := if gtb (aget a1 b) (aget a1 (b + len - 1)) then aswap a1 b (b + len - 1) else a1 in
-    if gtb (aget a2 (b + i)) (aget a2 (b + len - 1)) then aswap a2 (b + i) (b + len - 1) else a2.
+    match (if gtb (aget a b) (aget a (b + i)) then aswap_c a b (b + i) else Some a) with
+    | None => None
+    | Some a1 =>
+      match (if gtb (aget a1 b) (aget a1 (b + len - 1)) then aswap_c a1 b (b + len - 1) else Some a1) with
+      | None => None
+      | Some a2 =>
+        if gtb (aget a2 (b + i)) (aget a2 (b + len - 1)) then aswap_c a2 (b + i) (b + len - 1) else Some a2
+      end
+    end.
 
   (* *_qsort_inner on the segment [b, b+len); the two recursive calls work on disjoint segments (forked in
      the code), the model runs left then right *)
@@ -257,9 +282,11 @@ Section Sort.
     match fuel with
     | O => None
     | S f =>
-      if p_small P len then Some (base_sort a b len)
+      if p_small P len then (if b + len <=? bound then Some (base_sort a b len) else None)
       else
-        let a1 := trimedian a b len in
+        match trimedian a b len with
+        | None => None
+        | Some a1 =>
         let pivot := aget a1 (b + len / 2) in
         match walls wfuel a1 b (p_thresh P len) pivot 0 (len - 1) with
         | None => None
@@ -273,6 +300,7 @@ Section Sort.
               if (0 <? len - rw) && (rw <? len) then qsort_inner f wfuel a4 (b + rw) (len - rw) else Some a4
             end
           end
+        end
         end
     end.
 
